@@ -374,7 +374,9 @@ class Gen:
                 base = src.toks[lo_tok].start
                 body = src.text[base:src.toks[hi_tok].end]
                 # (tokens of OLD, separated by any white space and line comments)
-                pat = re.compile(r'(?:\s|//[^\n]*)*'.join(re.escape(t) for t in re.findall(r'\w+|[^\w\s]', old)))
+                # the word __ANY__ in OLD stands for any text (shortest match): used for the body of a closure that is under contract
+                # on its own, so that an edit of that body fails the closure's named obligation instead of losing this anchor
+                pat = re.compile(r'(?:\s|//[^\n]*)*'.join(r'[\s\S]*?' if t == '__ANY__' else re.escape(t) for t in re.findall(r'\w+|[^\w\s]', old)))
                 ms = list(pat.finditer(body))
                 if n >= len(ms):
                     raise LostAnchor('replace: %r not found' % old)
@@ -924,7 +926,23 @@ class Gen:
                                 while st - 1 > t_open and (src.is_id(st - 1, 'pub') or src.is_p(st - 1, ')') and src.is_id(src.match[st - 1] - 1, 'pub')):
                                     st = st - 1 if src.is_id(st - 1, 'pub') else src.match[st - 1] - 1
                                 for at in a:
+                                    if at.startswith('@'):
+                                        continue
                                     inserts.append((src.toks[st].start, '#[%s] ' % at, None))
+                                if '@divclosure' in a:
+                                    # R6 (closurespec) inside a macro transcriber: a closure `|| panic!(..)` gets the contract of a
+                                    # function that does not return (`ensures false`); the panic macro itself is shadowed (R1)
+                                    if ret_lo is None:
+                                        raise LostAnchor('divclosure: %s has no return type' % fname)
+                                    rty = src.text[src.toks[ret_lo].start:src.toks[ret_hi].end]
+                                    found = 0
+                                    for q in range(body_open + 1, src.match[body_open]):
+                                        if src.is_p(q, '|') and src.is_p(q + 1, '|') and src.is_id(q + 2, 'panic') and src.is_p(q + 3, '!') and src.is_p(q + 4, '('):
+                                            inserts.append((src.toks[q + 2].start, '-> (x: %s) ensures false { ' % rty, None))
+                                            inserts.append((src.toks[src.match[q + 4]].end, ' }', None))
+                                            found += 1
+                                    if found == 0:
+                                        raise LostAnchor('divclosure: no `|| panic!(..)` closure in %s of macro %s' % (fname, name))
                                 break
                         if ret_lo is not None:
                             inserts.append((src.toks[ret_lo].start, '(r: ', None))
